@@ -13,7 +13,7 @@ from vf.xmodel import Schema, Rop, build_api, build_loader
 
 SHARDS = {'quick': 16, 'thorough': 32}
 TIMEOUT = {'quick': 900, 'thorough': 5400}
-MUST_HIT = ['SortOracle.very-long-chain', 'SortOracle.rejected-calls-in-history', 'SortOracle.same-set-sorted-before-and-after-edits', 'SortOracle.some-whole-chains', 'SortOracle.ring-with-outsiders', 'SortOracle.other-reflexive-associations', 'SortOracle.after-edit-history', 'SortOracle.mixed-subset-termination', 'SortOracle.chains', 'SortOracle.ring', 'StepBudget.guarded-calls', 'SortOracle.subset-termination']
+MUST_HIT = ['SortOracle.after-delete-inside-a-chain', 'SortOracle.very-long-chain', 'SortOracle.rejected-calls-in-history', 'SortOracle.same-set-sorted-before-and-after-edits', 'SortOracle.some-whole-chains', 'SortOracle.ring-with-outsiders', 'SortOracle.other-reflexive-associations', 'SortOracle.after-edit-history', 'SortOracle.mixed-subset-termination', 'SortOracle.chains', 'SortOracle.ring', 'StepBudget.guarded-calls', 'SortOracle.subset-termination']
 MUST_REACH = ['xtuml/meta.py:sort_reflexive', 'xtuml/meta.py:sort_reflexive.<locals>.sequence_generator']
 ANCHORS = MUST_REACH
 MIN_NONTRIVIAL = {'quick': 500, 'thorough': 500}
@@ -204,6 +204,20 @@ def check_edited(ctx, budget, rng, n, route):
         return a, b
     ctx.hit('SortOracle.after-edit-history')
     verify_chains(ctx, budget, insts, n, tuple(b), order, qs)
+    if n >= 3 and rng.random() < 0.4:
+        # a member is deleted: what is left of its chain are two whole chains (or one, or none)
+        x = rng.randrange(n)
+        xtuml.delete(insts[x])
+        rest = []
+        for c in b:
+            if x in c:
+                i = c.index(x)
+                rest.extend([p for p in (tuple(c[:i]), tuple(c[i + 1:])) if p])
+                if 0 < i < len(c) - 1:
+                    ctx.hit('SortOracle.after-delete-inside-a-chain')
+            else:
+                rest.append(tuple(c))
+        verify_chains(ctx, budget, insts, n, tuple(rest), [i for i in order if i != x])
     return a, b
 
 
